@@ -182,6 +182,16 @@ def trial(case):
                 window[0] -= 1; return rnd.choice(others)
             if victim in cand and seen[0] < at and rnd.random() < 0.7: return victim
             return rnd.choice(cand)
+    elif case.get("policy") == "pause_main":
+        # the loop thread is suspended at a chosen source line of its run for a window while the submitters run (a check-then-act window of the loop thread itself)
+        at = rnd.randrange(1, 500); window = [rnd.randrange(5, 120)]; seen = [0]
+        def choose(cand, cur):
+            if cur == "main": seen[0] += 1
+            others = [n for n in cand if n != "main"]
+            if "main" in cand and seen[0] >= at and window[0] > 0 and others:
+                window[0] -= 1; return rnd.choice(others)
+            if "main" in cand and seen[0] < at and rnd.random() < 0.6: return "main"
+            return rnd.choice(cand)
     else:
         def choose(cand, cur): return rnd.choice(cand)
     SCHED = Sched(choose, names)
@@ -202,6 +212,9 @@ def trial(case):
         elif r < 0.6:
             ev("reg_source", 1)
             loop.register_signal_source(srcs[1])
+        elif r < 0.8 and case.get("partial"):
+            # a partial processing call from the handler: the loop thread takes the top signal, looks at its priority and puts it back if it is another one
+            loop.process_signals()
     loop.register_signal_handler(S, h)
     submitted = []
     def runner(name, fn):
@@ -217,7 +230,7 @@ def trial(case):
         def f():
             for k in range(per):
                 sid = 100 * (i + 1) + k
-                s = S(rnd.choice([None, srcs[0], srcs[1]]), rnd.choice([0, 0, 1]), sid)
+                s = S(rnd.choice([None, srcs[0], srcs[1]]), rnd.choice([0, 0, 1, -1] if case.get("partial") else [0, 0, 1]), sid)
                 submitted.append([sid, s.source.n if s.source else None, s.priority, i])
                 ev("submit", sid, s.source.n if s.source else None, s.priority)
                 loop.enqueue_signal(s)
